@@ -6,6 +6,7 @@ which, when opened in dclab, can access features stored in the input file
 from __future__ import annotations
 
 import abc
+import collections
 import numbers
 import threading
 from typing import Dict, List, Literal
@@ -401,13 +402,33 @@ class BasinProxy:
 
     def __getitem__(self, feat):
         if feat not in self._features:
-            feat_obj = BasinProxyFeature(feat_obj=self.ds[feat],
-                                         basinmap=self.basinmap)
+            if feat == "trace":
+                # The trace feature is a dictionary-like object holding one
+                # array-like object per trace; map each of them.
+                feat_obj = BasinProxyTrace(trace_obj=self.ds[feat],
+                                           basinmap=self.basinmap)
+            else:
+                feat_obj = BasinProxyFeature(feat_obj=self.ds[feat],
+                                             basinmap=self.basinmap)
             self._features[feat] = feat_obj
         return self._features[feat]
 
     def __len__(self):
         return len(self.basinmap)
+
+
+class BasinProxyTrace(collections.UserDict):
+    def __init__(self, trace_obj, basinmap):
+        """Wrap around the trace feature, mapping each trace upon access"""
+        super(BasinProxyTrace, self).__init__()
+        for name in trace_obj.keys():
+            self[name] = BasinProxyFeature(feat_obj=trace_obj[name],
+                                           basinmap=basinmap)
+
+    @property
+    def shape(self):
+        key0 = sorted(self.keys())[0]
+        return tuple([len(self)] + list(self[key0].shape))
 
 
 class BasinProxyFeature(np.lib.mixins.NDArrayOperatorsMixin):
